@@ -45,9 +45,17 @@ def main(tier, seed):
              "(all decision points) and {EDF, FIFO}+enforce (returned decision)",
         required=("decision_points", "feasible_points", "returned_plan_located",
                   "instances_with_hopeless_task", "instances_with_cancellation"))
-    e1 = _e1props.main("C12", tier, seed, finish=False)
+    e1 = _e1props.main("C12", tier, seed, finish=False,
+                       extra_factory=["vf.cw_monitor.ClockworkMonitor"])
     combine_and_finish("C12", tier, seed, [("E4-models+direct", e4), ("E1-runs", e1)])
 
 
 def replay(path):
+    import json
+
+    with open(path) as f:
+        d = json.load(f)
+    if d.get("engine") == "e1":
+        return _e1props.replay("C12", path,
+                               extra_factory=["vf.cw_monitor.ClockworkMonitor"])
     return _e4props.replay("C12", path)
